@@ -1,11 +1,12 @@
 import SeqIoModel.Proofs.WriteRoundtrip
+import SeqIoModel.Proofs.Unchanged
 /-!
 # C11 – FASTQ writing round-trips; unchanged writing reproduces the input bytes
 
-Proved in this file: the FASTQ writer round trips through S.  The unchanged-writing theorems are in
-`Proofs/Unchanged.lean` when present (see evidence); `write_unchanged` is otherwise covered by the
-correspondence run (output compared byte-exactly with the model for every record of every case) and
-by the oracle that concatenates the outputs over well-formed inputs in all encodings.
+The FASTQ writer round trips through S; `write_unchanged` of the FASTQ machine emits exactly the
+record's extent in the input plus LF, for every capacity and chunking (M level), and concatenating
+these outputs over a well-formed file reproduces the file up to a final terminator; the FASTA
+counterpart is proved at the S level (extent = the record's lines).
 -/
 
 namespace SeqIo.Thm.C11
@@ -26,5 +27,44 @@ theorem fastq_write_many_roundtrip (rs : List (List UInt8 × List UInt8 × List 
   WriteProofs.fastq_many_roundtrip rs hok
 
 example : HeadOk [97, 32, 98] ∧ FieldOk [65, 67] ∧ FieldOk [73, 74] := by decide
+
+/-- M level: after any successful `next()` the FASTQ machine's `write_unchanged` emits exactly the
+record's original bytes (its four lines without the final LF, line endings included) plus LF -/
+theorem fastq_write_unchanged_bytes (inp : List UInt8) (G : Prop) (fuel : Nat) (r : Fastq.Reader)
+    (items : List FqItem) (hg : Fastq.Good inp G r items) (hfuel : r.br.src.inp.length + 2 ≤ fuel)
+    (hok : (Fastq.next fuel r).2 = .ok true) :
+    ∃ (x : FqRec) (rest : List FqItem), items = .record x :: rest ∧
+      Fastq.Good inp G (Fastq.next fuel r).1 rest ∧ (Fastq.next fuel r).1.byte = x.byte ∧
+      Fastq.writeUnchanged (Fastq.next fuel r).1.br.buf (Fastq.next fuel r).1.bp = some (Unchanged.rawFq inp x ++ [LF]) ∧
+      Unchanged.rawFq inp x =
+        (inp.drop x.byte).take ((Fastq.next fuel r).1.bp.pos1 - (Fastq.next fuel r).1.bp.pos0) :=
+  Fastq.Unch.fastq_unchanged_bytes inp G fuel r items hg hfuel hok
+
+/-- end to end: reading a well-formed LF or CRLF file (with or without final terminator) with the
+FASTQ machine at any capacity, policy and chunking and writing every record unchanged reproduces the
+file, plus an LF if the last line was unterminated -/
+theorem fastq_unchanged_reproduces_file (recs : List Recode.FqContent) (hok : Recode.FqOk recs)
+    (t : Recode.Term) (final : Bool) (cap : Nat) (hcap : 3 ≤ cap) (pol : Pol) (hpol : Fastq.PolGrows pol)
+    (script : List ReadEv) (hs : FillProofs.NoFail script) (chunk : Nat) (k : Nat) (hk : recs.length ≤ k) :
+    Fastq.Unch.runWrites k (Fastq.mkReader (Recode.encodeFastq recs t final) cap pol script chunk) =
+      some (Recode.encodeFastq recs t final ++ (if final || recs.isEmpty then [] else [LF])) :=
+  Fastq.Unch.fastq_write_unchanged_file recs hok t final cap hcap pol hpol script hs chunk k hk
+
+/-- trailing blank lines are dropped -/
+theorem fastq_unchanged_drops_trailing_blank (recs : List Recode.FqContent) (hok : Recode.FqOk recs)
+    (t : Recode.Term) (trail : Nat) (htrail : trail ≤ 2) :
+    (Spec.fastq (Recode.encodeFastq recs t true ++ (List.replicate trail t.bytes).flatten)).flatMap
+        (Unchanged.fqOut (Recode.encodeFastq recs t true ++ (List.replicate trail t.bytes).flatten)) =
+      Recode.encodeFastq recs t true :=
+  Unchanged.fastq_unchanged_trailing recs hok t trail htrail
+
+/-- FASTA counterpart (S level): the records' extents (plus LF) concatenate to the file, plus an LF if
+the last line was unterminated – for any per-line mixture of terminators -/
+theorem fasta_unchanged_reproduces_file (recs : List (List UInt8 × List (List UInt8))) (hok : Recode.FaOk recs)
+    (terms : Nat → Recode.Term) (final : Bool) :
+    ∃ rs, Spec.fasta (Recode.encodeFasta recs terms final) = .records rs ∧
+      rs.flatMap (Unchanged.faOut (Recode.encodeFasta recs terms final)) =
+        Recode.encodeFasta recs terms final ++ (if final || recs.isEmpty then [] else [LF]) :=
+  Unchanged.fasta_unchanged_concat recs hok terms final
 
 end SeqIo.Thm.C11
